@@ -6,6 +6,7 @@ import (
 	"go/token"
 	"go/types"
 	"math"
+	"os"
 	"regexp"
 	"regexp/syntax"
 	"sort"
@@ -169,6 +170,21 @@ func applyLenCond(cur IntervalSet, cond ssa.Value, truth bool, same func(ssa.Val
 	case *ssa.UnOp:
 		if c.Op == token.NOT {
 			return applyLenCond(cur, c.X, !truth, same)
+		}
+	case *ssa.Call:
+		// a length test written as a predicate of the module (func isMessageLength(p []byte) bool { return len(p) == 64 })
+		if f := c.Call.StaticCallee(); f != nil && !c.Call.IsInvoke() && inModule(f) {
+			for ai, a := range c.Call.Args {
+				if same(a) {
+					reg, ok := predicateLenRegion(f, ai, truth)
+					if os.Getenv("UHLINT_DEBUG") == "PLR" {
+						fmt.Fprintf(os.Stderr, "PLR apply %s truth=%v -> %v %v\n", f.Name(), truth, reg, ok)
+					}
+					if ok {
+						return cur.Intersect(reg)
+					}
+				}
+			}
 		}
 	case *ssa.BinOp:
 		// if err := check(x); err != nil { return }  —  a validation helper whose success implies a length
@@ -908,6 +924,33 @@ func RulePanic(r *Report, p *Program, tier string, wireTypes map[string]bool) {
 						}
 					}
 				case *ssa.Call:
+					// standard functions that panic on a negative count: Repeat, Grow
+					if g := x.Call.StaticCallee(); g != nil {
+						idx := -1
+						switch calleeName(g) {
+						case "strings.Repeat", "bytes.Repeat", "(*strings.Builder).Grow", "(*bytes.Buffer).Grow":
+							idx = 1
+						}
+						if idx >= 0 && idx < len(x.Call.Args) {
+							st := panicSite{fn: fn, instr: x, kind: "count", rule: "P1"}
+							if proveNonNeg(p, x, x.Call.Args[idx]) {
+								st.ok, st.why = true, "count argument of "+calleeName(g)+" is non-negative on every path"
+							} else {
+								st.detail = "the count handed to " + calleeName(g) + " is not known to be non-negative (it panics on a negative count)"
+							}
+							add(st)
+						}
+					}
+					// Addr.As4 panics unless the address is IPv4 or IPv4-mapped (documented)
+					if g := x.Call.StaticCallee(); g != nil && calleeName(g) == "(netip.Addr).As4" && len(x.Call.Args) == 1 {
+						st := panicSite{fn: fn, instr: x, kind: "as4", rule: "P5"}
+						if as4Safe(p, fn, x.Block(), x.Call.Args[0], 0) {
+							st.ok, st.why = true, "the address is known to be IPv4 (Is4/Is4In6 test, AddrFrom4) where As4 is called"
+						} else {
+							st.detail = "As4 is called on an address that is not known to be IPv4: it panics on an IPv6 address and on the zero Addr"
+						}
+						add(st)
+					}
 					if bi, ok := x.Call.Value.(*ssa.Builtin); ok && bi.Name() == "close" && len(x.Call.Args) == 1 {
 						okc, why := closeRunsOnce(fn, x)
 						add(panicSite{fn: fn, instr: x, kind: "close", rule: "P6", ok: okc, why: why, detail: "close of a channel made outside a function literal that is handed on as a callback: the callback can run again (the next datagram, the next event) and closing a closed channel panics"})
@@ -2379,6 +2422,108 @@ func unreferenced(p *Program, fn *ssa.Function) bool {
 	return true
 }
 
+// sameAddrValue: the same SSA value, or the same pure accessor of package netip applied to the same value
+// (addr.Addr() written twice).
+func sameAddrValue(a, b ssa.Value, depth int) bool {
+	if a == b {
+		return true
+	}
+	if depth > 3 {
+		return false
+	}
+	ca, ok1 := a.(*ssa.Call)
+	cb, ok2 := b.(*ssa.Call)
+	if !ok1 || !ok2 || len(ca.Call.Args) != 1 || len(cb.Call.Args) != 1 {
+		return false
+	}
+	fa, fb := ca.Call.StaticCallee(), cb.Call.StaticCallee()
+	if fa == nil || fa != fb {
+		return false
+	}
+	switch calleeName(fa) {
+	case "(netip.AddrPort).Addr", "(netip.Addr).Unmap", "(netip.Addr).WithZone":
+		return sameAddrValue(ca.Call.Args[0], cb.Call.Args[0], depth+1)
+	}
+	return false
+}
+
+// as4Safe: v is an IPv4 (or IPv4-mapped) address at blk: built by AddrFrom4, or a dominating Is4()/Is4In6() test of
+// it came out true; for a parameter of an unexported function, at every call site.
+func as4Safe(p *Program, fn *ssa.Function, blk *ssa.BasicBlock, v ssa.Value, depth int) bool {
+	if depth > 3 {
+		return false
+	}
+	if c, ok := v.(*ssa.Call); ok {
+		if g := c.Call.StaticCallee(); g != nil {
+			switch calleeName(g) {
+			case "netip.AddrFrom4", "netip.IPv4Unspecified":
+				return true
+			}
+		}
+	}
+	for _, b := range fn.Blocks {
+		if len(b.Succs) != 2 || len(b.Instrs) == 0 {
+			continue
+		}
+		ifi, ok := b.Instrs[len(b.Instrs)-1].(*ssa.If)
+		if !ok {
+			continue
+		}
+		cond, truth := ifi.Cond, true
+		if u, ok := cond.(*ssa.UnOp); ok && u.Op == token.NOT {
+			cond, truth = u.X, false
+		}
+		c, ok := cond.(*ssa.Call)
+		if !ok || len(c.Call.Args) != 1 || !sameAddrValue(c.Call.Args[0], v, 0) {
+			continue
+		}
+		g := c.Call.StaticCallee()
+		if g == nil || (calleeName(g) != "(netip.Addr).Is4" && calleeName(g) != "(netip.Addr).Is4In6") {
+			continue
+		}
+		succ := b.Succs[0]
+		if !truth {
+			succ = b.Succs[1]
+		}
+		if len(succ.Preds) == 1 && succ.Dominates(blk) {
+			return true
+		}
+	}
+	prm, ok := v.(*ssa.Parameter)
+	if !ok || fn.Object() == nil || fn.Object().Exported() {
+		return false
+	}
+	idx := -1
+	for i, q := range fn.Params {
+		if q == prm {
+			idx = i
+		}
+	}
+	calls := 0
+	for _, caller := range p.AllFuncs {
+		for _, b := range caller.Blocks {
+			for _, in := range b.Instrs {
+				for _, op := range in.Operands(nil) {
+					if *op == ssa.Value(fn) {
+						if ci, isCall := in.(ssa.CallInstruction); !isCall || ci.Common().Value != ssa.Value(fn) {
+							return false
+						}
+					}
+				}
+				ci, ok := in.(ssa.CallInstruction)
+				if !ok || ci.Common().StaticCallee() != fn || idx < 0 || idx >= len(ci.Common().Args) {
+					continue
+				}
+				calls++
+				if !as4Safe(p, caller, b, ci.Common().Args[idx], depth+1) {
+					return false
+				}
+			}
+		}
+	}
+	return calls > 0
+}
+
 // knownNonNilAt: a comparison of v with nil that came out "not nil" dominates the block.
 func knownNonNilAt(v ssa.Value, at *ssa.BasicBlock) bool {
 	for _, b := range at.Parent().Blocks {
@@ -2493,6 +2638,86 @@ var lintProgram *Program
 var successLenMemo = map[string]IntervalSet{}
 
 // successLenRegion: for a validation helper f(.., buf, ..) error, the lengths of buf for which it returns nil.
+// predicateLenRegion: the lengths of argument argIdx for which the boolean function f returns the given truth value
+// (every path that returns it, with what the path knows about the length; a path whose result is not a constant
+// makes the answer unknown).
+func predicateLenRegion(f *ssa.Function, argIdx int, truth bool) (IntervalSet, bool) {
+	if lintProgram == nil || f.Blocks == nil || argIdx >= len(f.Params) {
+		return nil, false
+	}
+	res := f.Signature.Results()
+	if res.Len() != 1 || !isBoolType(res.At(0).Type()) {
+		return nil, false
+	}
+	key := fmt.Sprintf("%s#%d#%v", f.String(), argIdx, truth)
+	if r, ok := successLenMemo[key]; ok {
+		return r, r != nil
+	}
+	successLenMemo[key] = nil
+	w := NewWalker(lintProgram)
+	w.Inline = inlineHelpers(nil, nil)
+	w.LoopFuel = 4
+	args := symbolicArgs(f)
+	name := args[argIdx].Name
+	var out IntervalSet
+	for _, pa := range w.Walk(f, args, nil) {
+		if os.Getenv("UHLINT_DEBUG") == "PLR" {
+			fmt.Fprintf(os.Stderr, "PLR %s %s %v [%s]\n", f.Name(), pa.Outcome, pa.Results, pa.State.Describe())
+		}
+		if pa.Outcome != "return" || len(pa.Results) != 1 {
+			return nil, false
+		}
+		reg, ok := pa.State.Ints["len("+name+")"]
+		if !ok {
+			reg = IntervalSet{{0, math.MaxInt64}}
+		}
+		v, isConst := pa.Results[0].BoolVal()
+		if !isConst {
+			// the comparison itself is the result (return len(p) == 64)
+			r0 := pa.Results[0]
+			if (r0.Op != "bin" && r0.Op != "cmp") || len(r0.Args) != 2 || r0.Args[0].String() != "len("+name+")" {
+				return nil, false
+			}
+			k, okk := r0.Args[1].Int64()
+			var op token.Token
+			switch r0.Name {
+			case "==":
+				op = token.EQL
+			case "!=":
+				op = token.NEQ
+			case "<":
+				op = token.LSS
+			case "<=":
+				op = token.LEQ
+			case ">":
+				op = token.GTR
+			case ">=":
+				op = token.GEQ
+			default:
+				return nil, false
+			}
+			if !okk {
+				return nil, false
+			}
+			if !truth {
+				op = negOp(op)
+			}
+			out = append(out, reg.Intersect(satisfying(op, k))...)
+			continue
+		}
+		if v != truth {
+			continue
+		}
+		out = append(out, reg...)
+	}
+	if len(out) == 0 {
+		return nil, false
+	}
+	out = normalise(out)
+	successLenMemo[key] = out
+	return out, true
+}
+
 func successLenRegion(f *ssa.Function, argIdx int) (IntervalSet, bool) {
 	if lintProgram == nil || f.Blocks == nil || argIdx >= len(f.Params) {
 		return nil, false
@@ -2575,6 +2800,9 @@ func callerMinLen(p *Program, fn *ssa.Function, v ssa.Value, depth int) int64 {
 				m := minOf(lenBounds(b, arg))
 				if k := callerMinLen(p, caller, arg, depth+1); k > m {
 					m = k
+				}
+				if os.Getenv("UHLINT_DEBUG") == "PLR" {
+					fmt.Fprintf(os.Stderr, "PLR caller %s of %s: min %d\n", calleeName(caller), fn.Name(), m)
 				}
 				if m < min {
 					min = m
